@@ -5,6 +5,7 @@ import (
 	"fmt"
 	"testing"
 
+	"github.com/skx/evalfilter/v2/object"
 	"pgregory.net/rapid"
 
 	"verif/harness/eng"
@@ -33,6 +34,13 @@ func runMulti(c *MultiCase) error {
 	if err != nil {
 		return fmt.Errorf("Prepare rejected a valid script: %v", err)
 	}
+	type kept struct {
+		run int
+		raw object.Object
+		exp lang.Value
+	}
+	var keep []kept
+	defer func() {}()
 	for i, exp := range c.Exps {
 		var obj interface{}
 		if c.Obj != nil {
@@ -47,6 +55,16 @@ func runMulti(c *MultiCase) error {
 		}
 		if exp.Unspec || (exp.Quirk && res.Err != nil) {
 			return nil
+		}
+		if res.Raw != nil && !exp.Err {
+			keep = append(keep, kept{i, res.Raw, exp.Val})
+		}
+		// what the host was handed by earlier runs is not changed by later ones
+		for _, k := range keep {
+			v, err := eng.FromObject(k.raw)
+			if err != nil || !lang.DeepEqual(v, k.exp) || v.Inspect() != k.exp.Inspect() {
+				return fmt.Errorf("the value returned by run %d was %s; after run %d the same object reads %s", k.run, k.exp.Describe(), i, v.Describe())
+			}
 		}
 	}
 	return nil
@@ -118,6 +136,7 @@ func TestC15(t *testing.T) {
 		ncopy := rapid.IntRange(1, 3).Draw(rt, "ncopy")
 		observe := []lang.Expr{}
 		useFunc := false
+		useBump, useBoth, useSame, useGlob := false, false, false, false
 		for i := 0; i < ncopy; i++ {
 			from := rapid.SampledFrom(names).Draw(rt, "from")
 			switch gen.Uniform(rt, "copykind", 5) {
@@ -169,7 +188,28 @@ func TestC15(t *testing.T) {
 			}
 			if i < nmut-1 && gen.Uniform(rt, "copybetween", 2) == 0 {
 				n := fmt.Sprintf("m%d", i)
-				switch gen.Uniform(rt, "betweenkind", 3) {
+				switch gen.Uniform(rt, "betweenkind", 7) {
+				case 3:
+					// the stepped variable is passed to a function that steps its parameter
+					useBump = true
+					inner = append(inner, lang.Assign{N: n, X: lang.Call{Fn: "bump2", Args: []lang.Expr{lang.Name{N: target}}}})
+					observe = append(observe, lang.Name{N: n})
+				case 4:
+					// ... passed twice: the two parameters are separate copies
+					useBoth = true
+					inner = append(inner, lang.Assign{N: n, X: lang.Call{Fn: "both", Args: []lang.Expr{lang.Name{N: target}, lang.Name{N: target}}}})
+					observe = append(observe, lang.Name{N: n})
+				case 5:
+					// ... returned by one call while a second call steps it
+					useBump, useSame = true, true
+					inner = append(inner, lang.Assign{N: n, X: lang.ArrayLit{Elems: []lang.Expr{lang.Call{Fn: "same", Args: []lang.Expr{lang.Name{N: target}}}, lang.Call{Fn: "bump2", Args: []lang.Expr{lang.Name{N: target}}}, lang.Name{N: target}}}})
+					observe = append(observe, lang.Name{N: n})
+				case 6:
+					// ... stepped inside a function through the global name
+					useGlob = true
+					inner = append(inner, lang.Assign{N: "gl", X: lang.Name{N: target}}, lang.Assign{N: n, X: lang.Call{Fn: "stepgl", Args: []lang.Expr{lang.Name{N: "gl"}}}})
+					names = append(names, "gl")
+					observe = append(observe, lang.Name{N: n})
 				case 0:
 					inner = append(inner, lang.Assign{N: n, X: lang.Name{N: target}})
 					names = append(names, n)
@@ -182,6 +222,48 @@ func TestC15(t *testing.T) {
 				}
 				aliases++
 			}
+		}
+		if useBump {
+			defs = append(defs, lang.FuncDef{N: "bump2", Params: []string{"p"}, Body: []lang.Stmt{
+				lang.IncDec{N: "p", Op: rapid.SampledFrom([]string{"++", "--"}).Draw(rt, "b2op")}, lang.Return{X: lang.Name{N: "p"}}}})
+		}
+		if useBoth {
+			defs = append(defs, lang.FuncDef{N: "both", Params: []string{"a", "b"}, Body: []lang.Stmt{
+				lang.IncDec{N: "a", Op: "++"}, lang.Return{X: lang.ArrayLit{Elems: []lang.Expr{lang.Name{N: "a"}, lang.Name{N: "b"}}}}}})
+		}
+		if useSame {
+			defs = append(defs, lang.FuncDef{N: "same", Params: []string{"q"}, Body: []lang.Stmt{lang.Return{X: lang.Name{N: "q"}}}})
+		}
+		if useGlob {
+			// the parameter was bound from gl; stepping gl leaves the parameter alone
+			defs = append(defs, lang.FuncDef{N: "stepgl", Params: []string{"q"}, Body: []lang.Stmt{
+				lang.IncDec{N: "gl", Op: "++"}, lang.Return{X: lang.ArrayLit{Elems: []lang.Expr{lang.Name{N: "q"}, lang.Name{N: "gl"}}}}}})
+		}
+		if rapid.Bool().Draw(rt, "idxcopy") {
+			// index and element of one iteration are copied out; later
+			// iterations (and stepping the loop variables) leave the copies alone
+			el := make([]lang.Expr, 0, 4)
+			for _, n := range names {
+				el = append(el, lang.Name{N: n})
+			}
+			el = append(el, lang.Lit{V: lang.Int(65536)}, lang.Lit{V: lang.Float(2.5)})
+			var iter lang.Expr = lang.ArrayLit{Elems: el}
+			switch gen.Uniform(rt, "idxiter", 3) {
+			case 1:
+				iter = lang.Binary{Op: "..", L: lang.Lit{V: lang.Int(3)}, R: lang.Lit{V: lang.Int(6)}}
+			case 2:
+				iter = lang.Lit{V: lang.Str("aé狐b")}
+			}
+			at := int64(gen.Uniform(rt, "idxat", 3))
+			body := []lang.Stmt{lang.If{C: lang.Binary{Op: "==", L: lang.Name{N: "ix"}, R: lang.Lit{V: lang.Int(at)}},
+				Then: []lang.Stmt{lang.Assign{N: "ki", X: lang.Name{N: "ix"}}, lang.Assign{N: "kv", X: lang.Name{N: "iv"}}}}}
+			if rapid.Bool().Draw(rt, "idxstep") {
+				body = append(body, lang.IncDec{N: "ix", Op: "++"})
+			}
+			inner = append(inner, lang.Assign{N: "ki", X: lang.Lit{V: lang.Int(-1)}}, lang.Assign{N: "kv", X: lang.Lit{V: lang.Int(-1)}},
+				lang.Foreach{Idx: "ix", Var: "iv", Iter: iter, Body: body})
+			names = append(names, "ki", "kv")
+			aliases++
 		}
 		if rapid.Bool().Draw(rt, "loopvar") {
 			// a loop variable taken from an array holding the copies is mutated
